@@ -21,7 +21,19 @@ CLAIMED = {
          "Trusted: the pure-Go stub of go-faiss (exact search, reconstruct, serialise). FAISS itself is not exercised. Inputs of one merge are lineage-disjoint (vector ids are unique per build).", "6 C05"),
 }
 
-PENDING = {k: 'claimed in DESIGN.md; its check is still under construction in this session and is not registered yet' for k in ['C03','C07','C08','C10','C11','C16','C17','C18','C19','C20']}
+CLAIMED.update({
+ "C03": ("exploration", "deterministic simulation, one-client configuration: seeded histories of doc-value visits on reused visit states over segments of every provenance and doc-value chunk sizes; relative oracle: fresh-state visit, postings transposed",
+         "Seeded visit orders (ascending, descending, random, repeated, chunk-crossing) x state reuse (same field list; across segments; from a closed segment) x doc-value chunk size x provenance; each visit equals the fresh-state visit of the same document; doc values of built segments equal their postings transposed. Only the history part of the statement is decided. Sampling, not proof.",
+         "Assumed: the fresh-state answer relative to the batch (pure-input part, not applicable to this family). Terms without byte 0xFF; no GeoShape extras. A visit state is only reused with the field list it was created for, as the statement says.", "6 C03"),
+ "C07": ("exploration", "deterministic simulation, one-client configuration: seeded Next/Advance/ReplaceActual histories on postings lists and iterators recycled as preallocation across terms, fields and segments; relative oracle: fresh Next-only iteration",
+         "Seeded (term, exclusion bitmap) x Next/Advance sequences x 8 flag combinations x preallocation reuse chains (other term / field / missing field / other or closed segment, 1-hit <-> general) x ReplaceActual; Count, every returned hit, ActualBitmap and DocNum1Hit are compared with the fresh full iteration minus the exclusion. Only the history part is decided; not bounded-exhaustive. Sampling, not proof.",
+         "Assumed: the fresh Next-only iteration with all details (reference). Advance targets strictly beyond the last returned document; ReplaceActual before the first call.", "6 C07"),
+ "C08": ("exploration", "deterministic simulation, one-client configuration: seeded dictionary iterations (automaton x range) over built / re-opened / merged / re-merged segments; relative oracle: match-all iteration filtered by the harness, fresh postings-list counts",
+         "Seeded automata (nil, match-all, exact, prefix, vellum regexp, vellum levenshtein 1-2, never) x ranges (bounds absent / equal / between / below / above terms) x provenance; returned terms equal the match-all terms filtered by running the automaton in the harness; each Count equals a fresh PostingsList.Count; Contains and Cardinality agree. Only the history part is decided. Sampling, not proof.",
+         "Assumed: the match-all iteration's term list (reference). An empty non-nil end bound is not a well-formed range and is not generated.", "6 C08"),
+})
+
+PENDING = {k: 'claimed in DESIGN.md; its check is still under construction in this session and is not registered yet' for k in ['C10','C11','C16','C17','C18','C19','C20']}
 
 NOT_APPLICABLE = {
  "C01": "pure function of (batch, chunk mode, build tag): no schedule, fault, timer, I/O error or call history in the statement; deciding it needs an independent model of the index, i.e. input generation rather than simulation (DESIGN 2, 6)",
